@@ -27,7 +27,50 @@ NS = 6  # late streams 1..6
 
 
 @st.composite
+def selfreplace(draw, ctx):
+    """A ULT running on a secondary stream replaces that stream's main scheduler while it is
+    associated with any of the old scheduler's pools (first or later), with a new scheduler
+    that has fewer, as many or more pools: the caller must continue under the new scheduler
+    (first pool), units created afterwards in the new pools must run, and the stream must
+    still join."""
+    lines = [draw(sched_line(ctx, extra=" tick=10000"))]
+    nold = draw(st.integers(1, 3))
+    nnew = draw(st.integers(1, 2))
+    lines.append("pool 0 kind=fifo access=mpmc")
+    for i in range(1, nold + 1):
+        lines.append("pool %d kind=%s access=mpmc" % (i, draw(st.sampled_from(["fifo", "fifo", "randws"]))))
+    for i in range(nnew):
+        lines.append("pool %d kind=fifo access=mpmc" % (10 + i))
+    lines.append("xs 0 sched=default pools=0")
+    lines.append("xs 1 sched=%s pools=%s alt=%s" % (
+        draw(st.sampled_from(["basic", "prio"])), ",".join(str(i) for i in range(1, nold + 1)),
+        ",".join(str(10 + i) for i in range(nnew))))
+    k = draw(st.integers(1, nold))
+    body = ["yieldn %d" % draw(st.integers(0, 2)), "setmain 1 %d" % draw(st.sampled_from([1, 3])),
+            "selfstate", "fset 1", "yieldn %d" % draw(st.integers(0, 3)), "work 1"]
+    units = ["unit 0 type=ult named=1 pool=%d : %s" % (k, "; ".join(body))]
+    main = ["create 0", "fwait 1"]
+    ids = [0]
+    for _ in range(draw(st.integers(0, 3))):
+        u = len(units)
+        units.append("unit %d type=%s named=1 pool=%d : %s" % (
+            u, draw(st.sampled_from(["ult", "ult", "task"])), 10 + draw(st.integers(0, nnew - 1)),
+            draw(st.sampled_from(["nop", "work 1", "yield"])) ))
+        main.append("create %d" % u)
+        ids.append(u)
+    units = [x.replace("type=task named=1", "type=task named=1") for x in units]
+    main += ["free %d" % u for u in draw(st.permutations(ids))]
+    main += [draw(st.sampled_from(["xsjoin 1", "xsfree 1"]))]
+    lines += units
+    lines.append("main : " + "; ".join(main))
+    lines.append("note c17-selfreplace k=%d nold=%d nnew=%d" % (k, nold, nnew))
+    return "\n".join(lines) + "\n"
+
+
+@st.composite
 def cases(draw, ctx):
+    if ctx.get("variant") == "selfreplace":
+        return draw(selfreplace(ctx))
     lines = [draw(sched_line(ctx, extra=" tick=10000"))]
     # pools: 0 primary; i -> stream i; 10,11 alternative pools
     lines.append("pool 0 kind=fifo access=mpmc")
@@ -194,6 +237,7 @@ def judge(text, res, ctx):
 def classify(text, res, ctx):
     out = []
     for k in ("rank_collisions_rejected", "rank_changes", "stream_revives", "main_sched_replaced",
+              "main_sched_self_replaced_secondary",
               "streams_created", "xsjoins"):
         if stat(res, k):
             out.append(k)
@@ -205,12 +249,20 @@ def classify(text, res, ctx):
 
 
 def nontrivial(text, res, ctx):
+    if "note c17-selfreplace" in text:
+        # non-trivial: the caller sat in a later pool of the old scheduler, or the pool count changed
+        import re
+        m = re.search(r"k=(\d+) nold=(\d+) nnew=(\d+)", text)
+        return stat(res, "main_sched_self_replaced_secondary") >= 1 and \
+            (int(m.group(1)) > 1 or m.group(2) != m.group(3))
     return ("reused=1" in text and stat(res, "stream_revives") >= 1) or \
         ("conc=2" in text or "conc=3" in text) or stat(res, "rank_collisions_rejected") >= 1
 
 
 PLAN = {
-    "quick": [("coarse", 10, 200), ("san", 4, 60), ("native", 2, 80)],
+    "quick": [("coarse", 10, 200), ("san", 4, 60), ("native", 2, 80), ("coarse", 2, 150, "selfreplace"),
+              ("native", 1, 60, "selfreplace")],
     "thorough": [("coarse", 6, 3000), ("fine", 6, 1500), ("san", 2, 800), ("nopool", 1, 800),
-                 ("native", 1, 1500)],
+                 ("native", 1, 1500), ("coarse", 2, 2000, "selfreplace"), ("fine", 2, 1000, "selfreplace"),
+                 ("native", 1, 500, "selfreplace")],
 }
